@@ -95,7 +95,9 @@ func (s *NotifyFollowReader) Read(buf []byte) (int, error) {
 			}
 		case <-s.eventDelete:
 			if s.ReOpen {
-				s.closeFile()
+				if !s.isCurrentFile() { // a delete event of an earlier file at this path is stale
+					s.closeFile()
+				}
 			} else {
 				s.Close()
 				return 0, io.EOF
@@ -142,6 +144,19 @@ func (s *NotifyFollowReader) closeFile() {
 		s.f.Close()
 		s.f = nil
 	}
+}
+
+// isCurrentFile reports whether the open descriptor still is the file at the followed path
+func (s *NotifyFollowReader) isCurrentFile() bool {
+	if s.f == nil {
+		return false
+	}
+	open, err := s.f.Stat()
+	if err != nil {
+		return false
+	}
+	now, err := os.Stat(s.filename)
+	return err == nil && os.SameFile(open, now)
 }
 
 func writeSignalNonBlock(c chan<- struct{}) {
